@@ -8,7 +8,7 @@ EXPLANATION = (
     "on the typed-element layer. set_span/del_span on the lxml model (area, overlap refusal, values untouched, restoration); to_csv()/str(table) hand every "
     "value - 0, False and 0.0 included - to the CSV writer as it is. "
 )
-OUTSIDE = "set_span with merge=True, spans on tables larger than 3x3, the csv module itself and import_from_csv (csv.Sniffer/reader/writer are heuristics and C code: the export obligation stops at the rows handed to the writer), repeats > 2 for transpose (3 in the thorough tier)"
+OUTSIDE = "set_span with merge=True, spans on tables larger than 3x3 (4x4 in the thorough tier), the csv module itself and import_from_csv (csv.Sniffer/reader/writer are heuristics and C code: the export obligation stops at the rows handed to the writer), repeats > 2 for transpose (3 in the thorough tier)"
 ASSUMPTIONS = ["rectangular two row-runs x two cell-runs template with an optional run of trailing empty (possibly styled) cells and trailing empty rows"]
 TRUSTED = _T
 _E = ["src/odfdo/table.py:Table.transpose,rstrip,is_empty,optimize_width,_optimize_width_*", "src/odfdo/row.py:Row.rstrip,is_empty,extend_cells,traverse,minimized_width,force_width,last_cell"] + KT_ENCODES[2:3]
@@ -47,3 +47,10 @@ for _k in range(7):
 from props.common import kget_obligations as _kg  # noqa: E402
 
 OBLIGATIONS += [o for o in _kg(['ktrans_twice_small', 'ktrans_ragged', 'koptimize', 'krstrip', 'krstrip_styled_rows']) if o.name.endswith("@d1")]
+
+# thorough tier: the same span obligation on a 4 x 4 table (VERIF_DEPTH=1)
+for _r0, _c0 in ((1, 1), (2, 2), (3, 3), (1, 3), (3, 1)):
+    OBLIGATIONS.append(Obl(name=f"span_area_4x4_r{_r0}_c{_c0}", module="h_span", func="span_area", shadow=True, timeout=1800, tier="thorough",
+                           env={"VERIF_R0": str(_r0), "VERIF_C0": str(_c0), "VERIF_DEPTH": "1"}, extra={"r0": _r0, "c0": _c0, "n": 4}, replay="r_h_span:span_area", weight=430,
+                           bounds=f"4x4 table stored as rows [A x {_r0}, B x {4 - _r0}] of cells [v x {_c0}, w x {4 - _c0}]; every span area of at least 2 cells inside it (symbolic corners): set_span, overlapping set_span, del_span",
+                           encodes=_SENC, stubs=["/verif/shadow/lxml (symdom)"]))
